@@ -19,7 +19,7 @@ def rules_for(prop):
         "C04": [named(grp.rule_eq1, files=("rxsci/operators/group_by.py", "rxsci/state/memory_store.py", "rxsci/state/store.py",
                                            "rxsci/operators/multiplex.py"), min_instances=12), named(grp.rule_fw1, heads=("group_by",)), grp.rule_fl1,
                 named(lv.rule_lv, only=("group_by_mux._group_by.on_subscribe",))],
-        "C05": [grp.rule_roll, st.rule_st2_3_4, st.rule_st6,
+        "C05": [grp.rule_roll, named(grp.rule_fw1, heads=("roll_count",)), st.rule_st2_3_4, st.rule_st6,
                 named(lv.rule_lv, only=("roll_mux._roll.subscribe", "roll_mux._roll_count.subscribe"))],
         "C08": [tm.rule_tm123, tm.rule_tm4, tm.rule_tm5, st.rule_st5, mx.rule_mx7],
         "C09": scan.RULES,
@@ -69,7 +69,7 @@ EXPLANATION = {
     "C04": _COMMON + "Decided clauses: EQ-1 no identity comparison on user values in group_by / MemoryStore; FW-1 every item is forwarded "
            "unchanged to exactly the child whose index is the map entry of key_mapper(item); FL-1 open groups are flushed by iterating the "
            "parent's dict itself (insertion order); LV for group_by. Not decided: hash/eq consistency of user keys.",
-    "C05": _COMMON + "Decided clauses: DP-1 counter incremented exactly once per item and reset with the parent; DP-2 a window opens iff "
+    "C05": _COMMON + "Decided clauses: DP-0 every item is delivered once to every open window (delivery loop covers the whole ring; FW-1 for the tumbling variant); DP-1 counter incremented exactly once per item and reset with the parent; DP-2 a window opens iff "
            "counter % stride == 0 in slot (counter // stride) % density storing the counter, and closes iff counter - start + 1 == window "
            "(tests compared in linear normal form); DP-3 flush order depends on the ring phase; ST-2/3/4/6 on the slot ring; LV. Not "
            "decided: that density = ceil(window/stride) slots suffice (explicit assumption), exact window contents.",
